@@ -442,20 +442,20 @@ Qed.
 
 (** ** The C02 oracle holds on every session of the model: every key pair is
     new with respect to all keys that existed before it. *)
-Theorem oracle_c02_session_model dir chal keypair : Injective keypair -> forall rs s old_keys,
+Theorem oracle_c02_session_model chal keypair : Injective keypair -> forall rs s old_keys,
   (forall n, (s_kdraws s <= n)%nat -> ~ In (keypair n) old_keys) ->
-  oracle_c02_session old_keys rs (snd (session dir chal keypair rs s)) = true.
+  oracle_c02_session old_keys rs (snd (session chal keypair rs s)) = true.
 Proof.
   intro Hinj. induction rs as [|ri rest IH]; intros s old_keys Hold; simpl; [reflexivity|].
   unfold run_once.
-  pose proof (oracle_c02_run_model (run_env dir chal keypair ri) (ri_params ri) (ri_handlers ri)
+  pose proof (oracle_c02_run_model (run_env chal keypair ri) (ri_params ri) (ri_handlers ri)
                 (start_run s) old_keys) as Ho.
-  destruct (run_body (run_env dir chal keypair ri) (ri_params ri) (ri_handlers ri) (start_run s))
+  destruct (run_body (run_env chal keypair ri) (ri_params ri) (ri_handlers ri) (start_run s))
     as [[s1 ev] r] eqn:Hr.
   apply run_body_gen_keys in Hr as [Hle Hkeys].
   cbn [start_run s_kdraws run_env e_keypair] in *.
   specialize (IH s1 (all_gen_keys ev ++ old_keys)).
-  destruct (session dir chal keypair rest s1) as [s2 os2].
+  destruct (session chal keypair rest s1) as [s2 os2].
   simpl. rewrite Ho by (apply Hold; lia). simpl. apply IH.
   intros n Hn Hin. apply in_app_or in Hin as [Hin|Hin].
   - destruct (Hkeys _ Hin) as [m [Hm Heq]]. apply Hinj in Heq. lia.
